@@ -9,7 +9,7 @@ from __future__ import annotations
 import random
 
 SIZES = [0, 1, 1, 2, 2, 2, 3, 3, 4, 6, None, None]
-CB_KINDS = [None, None, "s", "s", "a", "g", "sx", "ax", "gx", "sT", "sm", "am", "so", "sp", "ap", "gp", "sf", "ak", "gk"]
+CB_KINDS = [None, None, "s", "s", "a", "g", "sx", "ax", "gx", "sT", "sm", "am", "so", "sp", "ap", "gp", "sf", "ak", "gk", "sxp", "axp", "sxo", "gxm"]
 CB_KINDS_SAFE = [None, "s", "a", "g", "sm"]
 ASH = [0, 1, 2, 3, 3, 5, 6]      # payload shapes (4 is the counting iterator of rejected requests)
 POINTS = ["ws", "we", "wc", "ecb", "ccb", "it", "fa"]
@@ -34,7 +34,7 @@ PROFILES = {
     "C09": {"w": {"bad_spawn": 14.0, "lock": 5.0, "unlock": 4.0, "gather": 3.0, "spawn": 1.3}, "named": 0.4},
     "C10": {"w": {"spawn": 2.0, "cancel_group": 3.0, "cancel_all": 1.5}, "named": 0.5},
     "C11": {"w": {"spawn": 2.0, "flush": 2.0, "new_pool": 12.0, "gather": 4.0}, "pools": [1, 2, 2, 3]},
-    "C12": {"w": {"gate_x": 5.0, "gate_c": 4.0, "flush": 2.5, "gather": 3.0}, "cb": [None, "s", "sx", "ax", "gx", "a", "sT"], "fail": 0.4, "endx": 0.3, "retx": 0.2, "iterx": 0.15},
+    "C12": {"w": {"gate_x": 5.0, "gate_c": 4.0, "flush": 2.5, "gather": 3.0}, "cb": [None, "s", "sx", "ax", "gx", "a", "sT", "sxp", "axp", "sxo", "axk", "gxm"], "fail": 0.4, "endx": 0.3, "retx": 0.2, "iterx": 0.15},
     "C13": {"w": {"flush": 7.0, "cancel": 2.0, "cancel_group": 1.5}, "cb": ["g", "g", "a", "s", None, "gx"], "iterx": 0.15},
     "C14": {"w": {"stop": 8.0, "cancel": 2.0, "spawn": 1.5}, "simple": 1.0},
 }
@@ -118,7 +118,7 @@ class Gen:
         rng = self.rng
         s = {"g": rng.choice([0, 1, 1, 1, 2, 3])}
         if rng.random() < self.endx:
-            s["end"] = rng.choice(["x", "x", "x", "xg", "xm"])
+            s["end"] = rng.choice(["x", "x", "x", "xg", "xm", "xl", "xl"])
         elif rng.random() < self.retx:
             s["end"] = "rx"
         if rng.random() < self.stubborn:
@@ -241,7 +241,11 @@ class Gen:
             st["ash"] = 4            # args given as a one-shot counting iterator (only used for rejected requests)
         if bad == "notcoro":
             st["bad"] = "notcoro"
-            st["nck"] = rng.randrange(6)
+            st["nck"] = rng.randrange(7)
+            if st["nck"] == 6 and kind != "apply" and "gn" not in st:
+                # (map variants evaluate func.__name__ for the generated group name before any check: a callable without
+                #  __name__ needs an explicit group name to get as far as the check - see DESIGN.md section 9)
+                st["gn"] = "pair%d" % self.label
         elif bad == "nc0" and kind != "apply":
             st["nc"] = rng.choice([0, -1, 0.5, 0.999, -0.5])
         return st
@@ -274,8 +278,13 @@ class Gen:
             if (st["kind"] == "start") != (pc.cls == "S"):
                 return None
             st["p"] = pc.idx
+            if rng.random() < 0.3:
+                st["noloop"] = 1            # ... asked by synchronous code outside any running loop
             return st
-        return self._g_spawn(sim, bad=how)
+        st = self._g_spawn(sim, bad=how)
+        if st is not None and how == "notcoro" and rng.random() < 0.2:
+            st["noloop"] = 1
+        return st
 
     def _g_gate(self, sim, how=None):
         keys = sim.pending_gates()
@@ -318,7 +327,8 @@ class Gen:
             elif c < 0.8 and pc.tasks:
                 refs.append(self._task_ref(rng.choice(pc.tasks)))
             else:
-                refs.append(["raw", rng.choice([-1, -7, 999, 12345, len(pc.tasks), len(pc.tasks) + 1])])
+                refs.append(["raw", rng.choice([-1, -7, 999, 12345, len(pc.tasks), len(pc.tasks) + 1,
+                                                None, "3", 7.5, float(rng.randrange(len(pc.tasks) + 1))])])   # ids that are no ints
         if rng.random() < 0.1 and refs:
             refs.append(refs[0])
         if rng.random() < 0.04 and live:
@@ -326,7 +336,10 @@ class Gen:
             refs = [self._task_ref(rng.choice(live)) for _ in range(rng.choice([65, 70, 130]))]
             if rng.random() < 0.7:
                 refs.append(["raw", rng.choice([-1, 999])] if not pc.tasks or rng.random() < 0.5 else self._task_ref(rng.choice(pc.tasks)))
-        return {"op": "cancel", "p": pc.idx, "ids": refs}
+        st = {"op": "cancel", "p": pc.idx, "ids": refs}
+        if rng.random() < 0.25:
+            st["msg"] = rng.choice(["bye", "", "shutdown requested"])
+        return st
 
     def _g_cancel_group(self, sim):
         rng = self.rng
@@ -346,11 +359,17 @@ class Gen:
                 self.followups.append(st)
                 if rng.random() < 0.5:
                     self.followups += [{"op": "run", "n": rng.choice([1, 2, 3, 5])}, {"op": "gather", "p": pc.idx, "rex": int(rng.random() < 0.4)}]
-        return {"op": "cancel_group", "p": pc.idx, "r": r.label}
+        st = {"op": "cancel_group", "p": pc.idx, "r": r.label}
+        if rng.random() < 0.25:
+            st["msg"] = rng.choice(["bye", "", "group done"])
+        return st
 
     def _g_cancel_all(self, sim):
         pc = self._pool(sim)
-        return {"op": "cancel_all", "p": pc.idx}
+        st = {"op": "cancel_all", "p": pc.idx}
+        if self.rng.random() < 0.25:
+            st["msg"] = "everybody out"
+        return st
 
     def _g_stop(self, sim):
         rng = self.rng
@@ -425,7 +444,7 @@ class PhasedGen(Gen):
         rng = self.rng
         s = {"g": rng.choice([1, 1, 1, 2])}
         if rng.random() < 0.12:
-            s["end"] = rng.choice(["x", "x", "rx", "xg", "xm"])
+            s["end"] = rng.choice(["x", "x", "rx", "xg", "xm", "xl", "xl"])
         if rng.random() < self.stubborn:
             s["oc"] = [rng.choice(["s", "r", "x"])]
         return s
